@@ -86,6 +86,19 @@ def hand(name):
         add("free-nt-start", 'inside(<var>, <start>)', FA("<start>", "s", FA("<var>", "v", PRED("inside", "v", "s"))))
         add("free-nt-empty-domain", '<digit> = "1" and exists <var> v: v = "b"', FA("<digit>", "d", AND(lit("d", "1"), EX("<var>", "v", lit("v", "b")))))
         add("free-nt-empty-domain", '<digit> = "1" or exists <var> v: v = "b"', FA("<digit>", "d", OR(lit("d", "1"), EX("<var>", "v", lit("v", "b")))))
+        # three disjuncts, only some of which mention a free nonterminal (the closure of each nonterminal distributes over `or`)
+        d0, va, vb = lit("d", "0"), lit("v", "a"), lit("v", "b")
+        add("free-nt-3-disjuncts", '<digit> = "0" or <var> = "a" or <var> = "b"', FA("<digit>", "d", FA("<var>", "v", OR(d0, va, vb))))
+        add("free-nt-3-disjuncts", '<var> = "a" or <digit> = "0" or <var> = "b"', FA("<digit>", "d", FA("<var>", "v", OR(va, d0, vb))))
+        add("free-nt-3-disjuncts", 'str.len(<stmt>) > 9 or <var> = "a" or <var> = "b"',
+            FA("<stmt>", "s", FA("<var>", "v", OR(SMT(A(">", A("str.len", V("s")), I(9))), va, vb))))
+        add("free-nt-3-disjuncts", '<digit> = "0" implies (<var> = "a" or <var> = "b")', FA("<digit>", "d", FA("<var>", "v", OR(NOT(d0), va, vb))))
+        add("free-nt-3-disjuncts", 'exists <digit> e: e = "1" or <var> = "a" or <var> = "b"', FA("<var>", "v", OR(EX("<digit>", "e", lit("e", "1")), va, vb)))
+        # omitted quantifier name + match expression whose variable has the default name of a free nonterminal in scope
+        add("free-nt-vs-mexpr-name", 'exists <assgn>="{<var> var} := <rhs>": var = <var>',
+            FA("<var>", "v0", EX("<assgn>", "a", SMT(A("=", V("var"), V("v0"))), mexpr=M(MNT("<var>", "var"), MCH(" := "), MNT("<rhs>")))))
+        add("free-nt-vs-mexpr-name", 'forall <assgn>="<var> := {<digit> digit}": (digit = "1" or <digit> = "0")',
+            FA("<digit>", "d0", FA("<assgn>", "a", OR(lit("digit", "1"), lit("d0", "0")), mexpr=M(MNT("<var>"), MCH(" := "), MNT("<digit>", "digit")))))
         add("negative-literal", 'forall <var> v: str.len(v) > -1', FA("<var>", "v", SMT(A(">", A("str.len", V("v")), I(-1)))))
         add("prefix-nested", 'forall <assgn> a: str.len(a) + 1 = 7', FA("<assgn>", "a", SMT(A("=", A("+", A("str.len", V("a")), I(1)), I(7)))))
         add("prefix-nested", 'forall <rhs> r: str.to.int(str.from_int(str.len(r))) = 1', FA("<rhs>", "r", SMT(A("=", A("str.to.int", A("str.from_int", A("str.len", V("r")))), I(1)))))
